@@ -8,6 +8,8 @@ clock seen by supervisor.process (a virtual clock object put in the module
 namespace of this harness process only; nothing under /repo is touched).
 """
 import errno
+import fcntl as _real_fcntl
+import os
 import sys
 
 import vlib
@@ -52,19 +54,31 @@ class RecLogger(object):
 
 
 class FakePipe(object):
-    """kernel side of a listener's stdin"""
+    """kernel side of a listener's stdin: a pipe with finite room.  `blocking` is what the
+    real make_pipes left in the descriptor's status flags: on a blocking descriptor a write
+    that does not fit would sleep until the listener reads (a deaf listener: for ever) - the
+    daemon hangs.  That is counted in `hangs`; the run then goes on as if the listener had
+    read, so that the rest of the history can still be observed."""
 
-    def __init__(self):
+    def __init__(self, blocking=False):
         self.accepted = b''
         self.broken = False
         self.outcome = ('room', BIG)
         self.calls = 0
+        self.blocking = blocking
+        self.hangs = 0
 
     def write(self, data):
         self.calls += 1
         if self.broken:
             raise OSError(errno.EPIPE, 'broken pipe')
         kind = self.outcome[0]
+        if self.blocking and kind in ('room', 'again'):
+            room = self.outcome[1] if kind == 'room' else 0
+            if len(data) > room:
+                self.hangs += 1
+            self.accepted += data
+            return len(data)
         if kind == 'room':
             k = max(0, min(self.outcome[1], len(data)))
             self.accepted += data[:k]
@@ -75,6 +89,51 @@ class FakePipe(object):
             self.broken = True
             raise OSError(errno.EPIPE, 'broken pipe')
         raise OSError(errno.EIO, 'io error')
+
+
+class _OsProxy(object):
+    """stands in for `os` inside supervisor.options while make_pipes runs"""
+
+    def __init__(self, opts):
+        self._o = opts
+
+    def pipe(self):
+        r = self._o.next_fd
+        self._o.next_fd += 2
+        return r, r + 1
+
+    def close(self, fd):
+        self._o.closed_fds.append(fd)
+
+    def __getattr__(self, name):
+        return getattr(os, name)
+
+
+class _FcntlProxy(object):
+    def __init__(self, opts):
+        self._o = opts
+
+    def fcntl(self, fd, op, arg=0):
+        if op == _real_fcntl.F_SETFL:
+            self._o.fd_flags[fd] = arg
+            return 0
+        if op == _real_fcntl.F_GETFL:
+            return self._o.fd_flags.get(fd, 0)
+        return 0
+
+    def __getattr__(self, name):
+        return getattr(_real_fcntl, name)
+
+
+def real_make_pipes(opts, stderr):
+    import supervisor.options as so
+    saved = so.os, so.fcntl
+    so.os, so.fcntl = _OsProxy(opts), _FcntlProxy(opts)
+    try:
+        inst = so.ServerOptions.__new__(so.ServerOptions)     # no option parsing needed for make_pipes
+        return so.ServerOptions.make_pipes(inst, stderr)
+    finally:
+        so.os, so.fcntl = saved
 
 
 class FakeOptions(object):
@@ -92,14 +151,15 @@ class FakeOptions(object):
         self.reads = {}          # fd -> bytes returned by the next readfd
         self.stdin_pipes = {}    # fd -> FakePipe
         self.closed_fds = []
+        self.fd_flags = {}       # fd -> status flags set through fcntl(F_SETFL)
 
     # --- system-call seam
     def make_pipes(self, stderr=True):
-        fds = {}
-        for k in ('child_stdin', 'stdin', 'stdout', 'child_stdout', 'stderr', 'child_stderr'):
-            fds[k] = self.next_fd
-            self.next_fd += 1
-        self.stdin_pipes[fds['stdin']] = FakePipe()
+        """the REAL ServerOptions.make_pipes, run over os/fcntl proxies that hand out descriptor
+        numbers and record the status flags set with F_SETFL (self.fd_flags)"""
+        fds = real_make_pipes(self, stderr)
+        nonblock = self.fd_flags.get(fds['stdin'], 0) & os.O_NONBLOCK
+        self.stdin_pipes[fds['stdin']] = FakePipe(blocking=not nonblock)
         return fds
 
     def close_parent_pipes(self, pipes):
